@@ -23,6 +23,8 @@ def build(pc, E, canary=None):
     pc.add_functions(E, [t for t in TARGETS if '#' not in t])
     import contracts.route as R
     R.verify_normalize(pc, E)
+    pc._dispatch_support_done = {'normalize'}
+    R.dispatch_support(pc, E)
     if canary is not None:
         return
     # T (by evaluation on the real module): the quoting applied to the query string is the identity on
